@@ -60,9 +60,12 @@ def generate(tier, seed, ctx):
         for _ in range(1 if big else 3):
             form, entry = combos[k % len(combos)]
             k += 1
-            if entry == 'builder' and root.type_ != -1:
-                entry = 'slice'
-            out.append(one(root, sheap, roots[0], skeys, bk.OPTION_SETS[k % 6], form, entry, note))
+            r = one(root, sheap, roots[0], skeys, bk.OPTION_SETS[k % 6], form, entry, note)
+            if entry == 'builder' and root.type_ != -1 and 'err' in r:
+                # a special root through the builder entry point: the library refuses (a builder cannot hold one) - unspecified, the
+                # slice entry point is used instead; but if it DOES hand a builder back, that builder is the root (recorded above)
+                r = one(root, sheap, roots[0], skeys, bk.OPTION_SETS[k % 6], form, 'slice', note)
+            out.append(r)
     # the same LIVE cell objects serialised under several roots one after another (a cell's bytes in a bag hold the
     # indexes of its children IN THAT BAG: nothing about an earlier bag may be reused)
     from pytoniq_core.boc import Builder
